@@ -1163,6 +1163,106 @@ impl PoolCase {
         vec![line]
     }
 
+    /// `pool idwrap`: a ring of its own with a pool A (2 buffers) that stays alive while pools
+    /// are created and dropped on that ring until one creation fails: the process-wide 16-bit
+    /// group id counter has come round to A's id and the kernel answers EEXIST. A must still be
+    /// registered and usable afterwards. Observed: how many creations succeeded, the error, whether
+    /// A's group is still registered, and a read through A.
+    fn do_idwrap(&mut self) -> Vec<String> {
+        use std::future::Future;
+        if self.ps * self.bs > (8 << 20) {
+            return vec!["bad-op".into()];
+        }
+        self.feats.push("group-id-counter-wraps".into());
+        simk::purge_closed_except(self.rfd);
+        let held_main = simk::hold_fd(self.rfd);
+        let before: Vec<i32> = simk::with_sim(|s| s.rings.keys().copied().collect());
+        let built_b = Ring::config().with_submission_queue_size(8).build();
+        if held_main {
+            simk::release_fd(self.rfd);
+        }
+        let mut ring_b = match built_b {
+            Ok(r) => r,
+            Err(e) => return vec![format!("idwrap setup-failed {e}")],
+        };
+        let sq_b = ring_b.sq();
+        let rfd_b = simk::with_sim(|s| s.rings.keys().copied().find(|k| !before.contains(k)).unwrap());
+        let raw_b = simk::with_ring(rfd_b, |r, _| r.fresh_fd());
+        let fd_b = unsafe { AsyncFd::from_raw_fd(raw_b, sq_b.clone()) };
+        let pool_a = match ReadBufPool::new(sq_b.clone(), 2, 8) {
+            Ok(p) => p,
+            Err(e) => return vec![format!("idwrap pool-failed {e}")],
+        };
+        let bgid_a = simk::with_ring(rfd_b, |r, _| r.pbufs.keys().next().copied()).unwrap_or(0);
+        let mut created = 0u32;
+        let mut errno = None;
+        for _ in 0..(65536 + 8) {
+            match ReadBufPool::new(sq_b.clone(), 1, 8) {
+                Ok(p) => {
+                    created += 1;
+                    drop(p);
+                }
+                Err(e) => {
+                    errno = Some(util::errno_name(e.raw_os_error().unwrap_or(0)));
+                    break;
+                }
+            }
+            // (the events of 65535 register/unregister pairs are of no interest)
+            if created % 4096 == 0 {
+                let _ = simk::drain_events();
+            }
+        }
+        let _ = simk::drain_events();
+        let live = simk::with_ring(rfd_b, |r, _| r.pbufs.contains_key(&bgid_a));
+        if !live {
+            self.fail("live-pool-unregistered", format!("a pool creation that the kernel refused with {} (group id {bgid_a} taken) unregistered the LIVE pool that owns that id: the kernel can no longer select its buffers", errno.clone().unwrap_or_default()));
+        }
+        // a read through A
+        let waker = util::waker(996);
+        let mut cx = Context::from_waker(&waker);
+        let mut fut = Box::pin(fd_b.read(pool_a.get()));
+        let first = util::catch(|| fut.as_mut().poll(&mut cx));
+        let _ = ring_b.poll(Some(Duration::ZERO));
+        let ud = simk::with_ring(rfd_b, |r, _| r.inflight.iter().find(|x| x.sqe.opcode == simk::OP_READ).map(|x| x.sqe.user_data));
+        if let Some(ud) = ud {
+            let mut spec = PostSpec::new(Target::UserData(ud), 3, 0);
+            spec.data = Some(vec![7, 8, 9]);
+            simk::with_ring(rfd_b, |r, ev| r.post(&spec, ev));
+        }
+        let _ = ring_b.poll(Some(Duration::ZERO));
+        let second = match first {
+            Ok(Poll::Pending) => util::catch(|| fut.as_mut().poll(&mut cx)),
+            other => other,
+        };
+        let read = match second {
+            Err(_) => "panic".to_string(),
+            Ok(Poll::Pending) => "pending".to_string(),
+            Ok(Poll::Ready(Err(e))) => format!("err:{}", util::errno_name(e.raw_os_error().unwrap_or(0))),
+            Ok(Poll::Ready(Ok(b))) => {
+                let ok = b.as_ref() == [7u8, 8, 9];
+                drop(b);
+                if ok { "ok".to_string() } else { "wrong-bytes".to_string() }
+            }
+        };
+        if read != "ok" && live {
+            self.fail("live-pool-unusable", format!("after a refused pool creation a read through the live pool answered {read}"));
+        }
+        drop(fut);
+        drop(pool_a);
+        std::mem::forget(fd_b);
+        unsafe { libc::close(raw_b) };
+        drop(sq_b);
+        drop(ring_b);
+        let _ = util::drain_wakes();
+        let _ = simk::drain_events();
+        vec![format!(
+            "idwrap created={created} collided={} errno={} live={} read={read}",
+            u8::from(errno.is_some()),
+            errno.unwrap_or_else(|| "-".into()),
+            u8::from(live)
+        )]
+    }
+
     /// `pool resv`: a ring and a pool (2 buffers) of their own. Both buffers are handed out (the
     /// kernel's head and the tail are 2: the next ring slot is slot 0, whose `resv` field IS the
     /// tail word), then one `ReadBuf` is released on a scheduled thread that is parked between
@@ -1488,6 +1588,7 @@ impl Case for PoolCase {
             11 => format!("pool cycle {}", if rng.chance(1, 3) { rng.range(1, (3 * self.ps as u64 + 3).min(150)) } else { rng.range(1, 6) }),
             12 => "pool ring".into(),
             14 => "pool xring".into(),
+            15 if rng.chance(1, 24) => "pool idwrap".into(),
             15 => "pool lone".into(),
             16 => "pool resv".into(),
             _ => {
@@ -1608,6 +1709,7 @@ impl Case for PoolCase {
             },
             ["pool", "xring"] => self.do_xring(),
             ["pool", "lone"] => self.do_lone(),
+            ["pool", "idwrap"] => self.do_idwrap(),
             ["pool", "resv"] => self.do_resv(),
             ["pool", "ring"] => vec![self.show_ring()],
             ["pool", "end"] => self.do_end(),
